@@ -353,6 +353,13 @@ def elements(H, tier):
     out.append(("worker+periodic", W + [con("ResourcePeriodicallyUnavailable", "c1", resource=R("w"), list_of_time_intervals=[(0, 1)], period=2)]))
     out.append(("select", [worker("w"), worker("v"), select("s", ["w", "v"]), req("a", "s"), req("b", "w")]))
     out.append(("select2", [worker("w"), worker("v"), select("s", ["w", "v"]), select("r", ["w", "v"]), req("a", "s"), req("b", "r")]))
+    # a selection next to a strict-sort user on one of its workers (points in the past must not meet)
+    SW = [worker("w"), worker("v"), select("s", ["w", "v"]), req("a", "s"), req("b", "w")]
+    SW2 = [worker("w"), worker("v"), select("s", ["w", "v"]), req("b", "s"), req("a", "w")]
+    for lab_, sw in (("a-selects", SW), ("b-selects", SW2)):
+        out.append((f"select+nondelay/{lab_}", sw + [con("ResourceNonDelay", "c1", resource=R("w"))]))
+        out.append((f"select+distance/{lab_}", sw + [con("ResourceTasksDistance", "c1", resource=R("w"), distance=1, mode="min")]))
+        out.append((f"select+idle/{lab_}", sw + [new("IndicatorResourceIdle", "i1", resource=R("w"))]))
     out.append(("select2+same", [worker("w"), worker("v"), select("s", ["w", "v"]), select("r", ["w", "v"]), req("a", "s"), req("b", "r"),
                                  con("SameWorkers", "c1", select_workers_1=R("s"), select_workers_2=R("r"))]))
     out.append(("cumulative", [cumul("w", 2), req("a", "w"), req("b", "w")]))
